@@ -23,7 +23,7 @@ def index_oracle(e):
             op = threads[t][ptr[t]]
             if op[0] in ("release", "release_lock") and int(op[1]) >= len(held[t]):
                 ptr[t] += 1
-            elif op[0] == "die":
+            elif op[0] in ("die", "die_in"):
                 ptr[t] += 1
             else:
                 break
